@@ -108,7 +108,9 @@ SUB_RULE = (
     "vector searchers' minimum x 7 needle-derived backgrounds (near matches, x.needle[1..] blocks, needle-minus-last "
     "blocks, windows equal on the last 32 bytes, shuffled needle bytes, broken periods) x planted occurrence at "
     "boundary offsets (every offset for short haystacks); (3) seeded random pairs with the needle cut out of the "
-    "haystack; (4) prefilter-history haystacks. Entry points: one-shot, Finder, FinderBuilder with Prefilter::None / "
+    "haystack; (4) prefilter-history haystacks; (5) long haystacks (4095/4096/4097/8197/65541 bytes; thorough twelve sizes "
+    "up to 1 MiB) x every needle family up to 300 bytes x {absent-byte, near-miss, needle-factor, plain-text} backgrounds "
+    "with no / one / two planted occurrences. Entry points: one-shot, Finder, FinderBuilder with Prefilter::None / "
     "Auto. Non-trivial = both slices non-empty." + distinct_note())
 
 
@@ -257,7 +259,8 @@ PLANS["C08"] = iter_plan(
     "find_iter / rfind_iter (top-level, via Finder/FinderRev, and into_owned with the needle buffer destroyed) on: "
     "self-overlapping needles (aa, aba, abab, aabaa, ...) and the empty needle in periodic haystacks of every length "
     "0..=70 and longer, with and without a defect; a^m in a^n; all needles over {a,b} up to 4/5 x haystacks up to "
-    "11/14, also embedded in 100-300-byte backgrounds; structured needle families; prefilter-history haystacks "
+    "11/14, also embedded in 100-300-byte backgrounds; structured needle families; long haystacks (4 KiB..64 KiB, thorough "
+    "..1 MiB) with every needle family up to 300 bytes; prefilter-history haystacks "
     "(matches after the adaptive prefilter went inert and while it is still effective). Every iteration is driven to "
     "exhaustion plus three further calls, size_hint is checked before every next(), clone/into_owned ops are "
     "sprinkled in. Non-trivial = haystack non-empty.",
@@ -280,7 +283,8 @@ C09_NATIVE = [
 
 PLANS["C09"] = {
     "rule": (
-        "one seeded case list (byte search fwd/rev x 1/2/3 needles on the full position grid for lengths <= 130/200, "
+        "one seeded case list (byte search fwd/rev x 1/2/3 needles on the full position grid for lengths <= 130/200 and on "
+        "4095/4096/4097/8192/8193/65539-byte haystacks, short needles in 4 KiB..64 KiB haystacks, "
         "count, substring fwd/rev one-shot and Finder, Prefilter::None, collected find_iter/rfind_iter, Two-Way) through "
         "the entry points present in every configuration (top-level dispatch, memmem, arch::all). Each configuration "
         "judges every case against the oracle AND writes a transcript (case index, result digest); transcripts are "
@@ -541,7 +545,10 @@ PLANS["C18"] = {
         "is_equal and is_equal_raw on lengths 0..=L (quick 64, thorough 80): equal, one differing byte at every position with "
         "three different flipped bits, two differing bytes; x all 64 (alignment of x mod 8, alignment of y mod 8) pairs plus "
         "guard-right/guard-left combinations and exact heap; different lengths; is_prefix / is_suffix for all (hlen, nlen) "
-        "up to 28/40 incl. nlen > hlen, true prefix/suffix and a difference at every needle position. Non-trivial = non-empty." + distinct_note()),
+        "up to 28/40 incl. nlen > hlen, true prefix/suffix and a difference at every needle position; all four functions on "
+        "ALIASED operands - two windows of one placed buffer (length <= 40/72, four contents incl. periodic): same start with "
+        "different lengths, empty slice at one-past-the-end against the other half, identical windows, windows shifted by "
+        "1/2/5/8/16. Non-trivial = non-empty." + distinct_note()),
     "assumptions": ["oracle = slice ==, starts_with, ends_with"],
     "exhaustive_note": "thorough: every (length<=80, differing position, alignment pair) combination listed is enumerated",
     "quick": [
